@@ -55,6 +55,9 @@
     calls (class changes and `Offline`, by id or by search) run among the other calls
     (`Proofs/ConcChange.lean`). `Online` cannot be added: K2.
 
+  * `conc_public_put_of_held_succeeds_with_tree_changes` — the same with `change_tree` calls (class
+    changes, `Offline`) among the concurrent calls (`Proofs/ConcPutOkChange.lean`).
+
   * `k2_online_race_panics` — **a second refutation** (known finding K2): a free into an offline
     tree that races with `change_tree(Online)` panics in the counter assertion of `Tree::put`
     (the frames of the free are counted once by the Online fetch and once by the free itself);
@@ -75,6 +78,7 @@ import LLFreeV.Proofs.OwnUpperThreads
 import LLFreeV.Proofs.ConcUpperThreads
 import LLFreeV.Proofs.ConcPutOk
 import LLFreeV.Proofs.ConcChange
+import LLFreeV.Proofs.ConcPutOkChange
 namespace LLFree.C03
 open LLFree
 
@@ -224,6 +228,19 @@ theorem conc_public_api_no_panic_with_tree_changes (c : Cfg) (ok : CfgOk c) (H :
     (hd : ((concRun sched (m, fun k => Th.at (runUC c (cmds k) ⟨[], []⟩))).2 k).step
       (concRun sched (m, fun k => Th.at (runUC c (cmds k) ⟨[], []⟩))).1 = .dead s) : s = oobMsg :=
   upper_conc_no_panic_change ok H m inv n cmds hvalid sched hsched k hk s hd
+
+/-- **Every free of a held block succeeds, in any interleaving, also while trees are changed
+    concurrently** (class changes, `Offline`; valid parameters, frees at the allocation order): threads
+    of the strict runner never finish with the failure flag set and never trap. -/
+theorem conc_public_put_of_held_succeeds_with_tree_changes (c : Cfg) (ok : CfgOk c) (H : Nat → Nat) (m : Mem)
+    (inv : UpperInv0 c H m) (n : Nat) (cmds : Nat → List CCmd) (hvalid : ∀ k, ∀ x ∈ cmds k, x.validS c)
+    (sched : List Nat) (hsched : ∀ k ∈ sched, k < n) (k : Nat) (hk : k < n) :
+    match ((concRun sched (m, fun k => Th.at (runUSC c (cmds k) ⟨[], []⟩))).2 k).step
+        (concRun sched (m, fun k => Th.at (runUSC c (cmds k) ⟨[], []⟩))).1 with
+    | .done a => a.2 = false
+    | .dead s => s = oobMsg
+    | .step _ _ _ => True :=
+  upper_conc_put_succeeds_change ok H m inv n cmds hvalid sched hsched k hk
 
 /-- the flag is not vacuous: a `put` that returns an error ends the strict runner with the flag set -/
 theorem put_failure_is_reported (c : Cfg) (b : Blk) (cls : Nat) (loc : Option Nat) (rest : List UCmd) (e : Err) (m m' : Mem)
